@@ -180,6 +180,22 @@ TEMPLATES = {
 }
 
 
+# a flow issues a request (activate / start / await of fz) in the very processing step in which it is ended from the outside:
+# fp is a child of fg, both wait for Go, fp's pattern Go(x=1) is the more specific one (its head advances first and queues the
+# request), then fg finishes and aborts fp. Later the only live activator of fz (fq) ends: fz and its action must end with it.
+for _req in ("activate fz", "start fz", "await fz", "start fz as $r\n  match $r.Finished()"):
+    for _pre_act in (True, False):
+        TEMPLATES["request-from-dying-flow:%s:%s" % (_req.split("\n")[0].replace(" ", "-"), "activated" if _pre_act else "fresh")] = (
+            "flow main\n  start fq\n  start fg\n  match Never()\n\n"
+            "flow fz\n  start FzAction() as $z\n  match Tick()\n  match Never2()\n\n"
+            "flow fq\n  %s\n  match EndQ()\n\n" % ("activate fz" if _pre_act else "match Early()")
+            + "flow fp\n  match Go(x=1)\n  %s\n  match Never3()\n\n" % _req
+            + "flow fg\n  start fp\n  match Go()\n",
+            [{"type": "Go", "x": 1}],
+            ["EndQ", "X", "FIN", "Tick", {"type": "Go", "x": 1}, "EndQ"],
+        )
+
+
 def running(fs):
     return getattr(fs.status, "value", str(fs.status)) in ("started", "starting")
 
@@ -393,6 +409,8 @@ def drive(src, pre, history, seed, static, api=False):
             sh.fed_started[uid] = _T["clock"]
             if sh.actions[uid]["stops"]:
                 sh.late_started += 1
+        elif isinstance(h, dict):
+            ev = dict(h)
         else:
             ev = {"type": h}
         fed.append(ev["type"])
